@@ -137,8 +137,7 @@ func observeState(o *obs, pfx string, kind uint8, blk uint64, sr stateQ, rerr er
 		h := h
 		dc, err := sr.Class(&h)
 		if err == nil {
-			ch, _ := dc.Class.Hash()
-			o.put(pfx+".Class("+h.ShortString()+")", kind, blk, nil, dc.At, ch)
+			o.put(pfx+".Class("+h.ShortString()+")", kind, blk, nil, dc.At, fmt.Sprintf("%T", dc.Class))
 		} else {
 			o.put(pfx+".Class("+h.ShortString()+")", kind, blk, err)
 		}
